@@ -105,7 +105,7 @@ def run_script(chk, prog, sim, up, get, kind, script, key):
                         if exp is None:
                             good, exp_s = g == ("N",), "None (first %d samples after a start/reset are absent for a %s command)" % (DEPTH[kind], kind)
                         else:
-                            exp_s = A.show(exp)
+                            exp_s = None
                             good = bool(g) and g[0] == "S" and g[1] == Sym("t" + tag)
                             if good:
                                 try:
@@ -113,6 +113,8 @@ def run_script(chk, prog, sim, up, get, kind, script, key):
                                 except Exception:
                                     good = False
                     if not good:
+                        if exp_s is None:
+                            exp_s = A.show(exp)
                         chk.violation("C11.value", "%s:after-%s" % (key, tag), "CommandPID(%s) fed %s: after %s:%s get() returns %r, expected %s"
                                       % (kind, [c + ":" + t for c, t in script], cat, tag, g, exp_s[:300]), fn=up["pretty"], file=loc(up["span"]))
                         ok = False
@@ -207,12 +209,14 @@ def run(chk):
     chk.analysed(up["pretty"])
     chk.analysed(get["pretty"])
     scripts = [
-        [("S", "a"), ("S", "b"), ("S", "c"), ("S", "d")],
+        # six present samples: the steady-state (fourth-and-later) arm runs three times, so the state it STORES is observed
+        # through the next outputs (error integral after one more step, output integral / double integral after two)
+        [("S", "a"), ("S", "b"), ("S", "c"), ("S", "d"), ("S", "e"), ("S", "f")],
         [("S", "a"), ("S", "b"), ("N", "x"), ("S", "c"), ("S", "d"), ("S", "e")],
         [("S", "a"), ("S", "b"), ("E", "x"), ("S", "c"), ("S", "d"), ("S", "e")],
     ]
     if chk.tier == "thorough":
-        scripts.append([("S", "a"), ("S", "b"), ("S", "c"), ("S", "d"), ("S", "e")])
+        scripts.append([("S", "a"), ("S", "b"), ("S", "c"), ("S", "d"), ("S", "e"), ("S", "f"), ("S", "g")])
         scripts.append([("E", "x"), ("S", "a"), ("N", "y"), ("S", "b"), ("S", "c"), ("S", "d")])
     for kind in KINDS:
         for script in scripts:
